@@ -116,6 +116,12 @@ def run(ck):
     impl, model = composer.run_both(ck, "\n".join(lines) + "\n", "c10")
     ck.sample({"program": progs["lxor4_1"]}); ck.sample({"program": progs["land127_0"]})
     bad = composer.compare_programs(ck, progs, impl, model, "C10")
+    # several gadget kinds on a shared pool of witnesses in one composer (caches keyed by witness, memoised bindings ...)
+    mbad, mprogs = composer.check_mixed_sequences(ck, composer.mixed_sequences(rng, 6 if quick else 60, "lxor"), "c10_mix", "C10")
+    if mbad and not ck.violations:
+        nm_, d_ = mbad[0]
+        ck.violation(f"correspondence C10 (L3) broke on mixed sequences of gadget calls: {nm_}: {d_}",
+                     {"failing_input_found": False, "correspondence": "L3 snapshot of a sequence of gadget calls on shared witnesses vs the Gallina model", "program": mprogs[nm_], "diff": d_, "theorems_no_longer_tied": THEOREMS})
     wbad = [b for b in widgets.run_tie(ck, 300 if quick else 4000, rng, "c10w") if b[0] in ("logic", "?")]
     jobs, expect, info = [], {}, {}
     for name, (op, P, a, b) in meta.items():
